@@ -44,6 +44,9 @@ def rename_fields(fields, resources=None, regex=True):
                             renames[res_name][sf_name] = target_name
                             sf['name'] = target_name
                             break
+                names = [sf['name'] for sf in schema_fields]
+                assert len(names) == len(set(names)),\
+                    f'Renaming a field to the name of an existing field {names!r}'
         not_matched = [
             src.pattern for src, _ in field_res
             if src.pattern not in matched
